@@ -383,14 +383,11 @@ func (s *store) Iterator(ctx context.Context, fieldKey index.FieldKey, termRange
 		rangeNode.Append(n)
 	}
 
-	sortedKey := fk
-	if order == modelv1.Sort_SORT_DESC {
-		sortedKey = "-" + sortedKey
-	}
 	result := &sortIterator{
 		query:       &queryNode{rangeQuery, rangeNode},
 		reader:      reader,
-		sortedKey:   sortedKey,
+		sortedKey:   fk,
+		desc:        order == modelv1.Sort_SORT_DESC,
 		size:        preLoadSize,
 		closer:      s.closer,
 		ctx:         ctx,
